@@ -14,6 +14,12 @@ CHECKS = {
  "C16": ("exploration", "bounded exhaustive enumeration of packed k-mers and rolling windows against a string-level model",
          "Complete for k<=11 (13 thorough); for every k and width all strings within Hamming distance 2 of six backgrounds isolate each 2-bit lane, mask and shift constant; rolling state is compared with the model and a from-scratch object at every window, with N at every position.",
          "Packing convention (A,C,T,G = 0..3, first letter most significant) restated independently in the harness.", "DESIGN.md §5 C16"),
+ "C04": ("model_checking", "bounded exhaustive exploration of the alignment writer's operation sequences (every subset of matched centres per reference layout) on the real code, oracle = literal three-way definition",
+         "The writer is an incremental state machine whose corner cases depend on gap lengths relative to k and on contig switches; every subset of matched centres over all single/pair/triple contig layouts with lengths around k drives it through every reachable call sequence, and every run is the real RefSka::new+map+write_aln compared with the model. Level B enumerates every reference string up to length 7/8 and structured repeat/short-contig/N/case references.",
+         "Samples are forged dictionaries (public build_from_array); one forked child per run; contig lengths and k bounded (k=5,7).", "DESIGN.md §5 C04"),
+ "C05": ("exploration", "bounded exhaustive enumeration of the C04 input families; relation between the real VCF and the real alignment of the same run",
+         "For every case both real outputs are produced and the record/REF/genotype relation of the statement is evaluated between them and the upper-cased reference, so the verdict does not depend on the C04 model; coordinates across contig boundaries, allele numbering with several alleles and non-ACGT characters are all reached by the enumeration.",
+         "Quick tier leaves the k=7 writer family and length-7 self maps to C04/thorough (each case costs two forked runs).", "DESIGN.md §5 C05"),
  "C06": ("exploration", "bounded exhaustive enumeration of forged tables x all filter settings, real filter/align vs the row predicate of the statement",
          "Rows are independent in every filter, so all rows over the 16-symbol alphabet (1..3 samples), all ordered pairs/triples of representative rows (alignment of the parallel vectors under removal) and pattern rows up to 12 samples, each under all 4x2x2x2 settings and every threshold, cover the predicate completely for the row and the bookkeeping for the table.",
          "Forged tables enter through the public MergeSkaDict::build_from_array/MergeSkaArray::new; all-gap rows excluded as unreachable.", "DESIGN.md §5 C06"),
